@@ -11,6 +11,7 @@
    than a []any (nil, primitives, typed nils, zero Stacks, ...).  No user
    unmarshaler is installed.  The receiver of Unmarshal is a native Stack. *)
 From Stackage Require Import Base Generated StackImpl Values JVal MarshalSpec Marshal MarshalProofs.
+From Stackage Require Import EqualBase EqualSpec Equal EqualProofs MarshalEqual.
 Open Scope Z_scope.
 
 (* Unmarshal returns the kind label followed by one entry per element in
@@ -78,6 +79,41 @@ Theorem c04_roundtrip_isequal :
         is_equal (JStack Native c' els') (JStack Native c els) = true.
 Proof. exact roundtrip_isequal. Qed.
 Print Assumptions c04_roundtrip_isequal.
+
+(* The same clause against the IsEqual MODEL of C05 (Equal.v, the one the
+   `equal` family ties to Stack.IsEqual) instead of an abstract comparison:
+   for every Stack tree of Values.value in the common domain - kinds,
+   operators and expressions Marshal accepts (node_ok); no capacity, no case
+   folding (plain); supported leaves, no NaN, no equality policy
+   (refl_domain, the domain on which IsEqual is reflexive) - Unmarshal
+   succeeds, Marshal of its result succeeds on an uninitialised receiver, and
+   IsEqual returns nil between original and reconstruction in both
+   directions. *)
+Theorem c04_roundtrip_is_equal_model :
+  forall (pol : N -> jval -> option N) (c : config) (els : list value),
+    node_ok (inj (VStack Native c els)) = true -> plain (inj (VStack Native c els)) = true ->
+    refl_domain (VStack Native c els) = true ->
+    exists u c' els',
+      Unmarshal (RInit c (map inj els)) = Ok u /\
+      Marshal pol RZero u = Ok (RInit c' (map inj els'), false) /\
+      is_equal repaired (VStack Native c els) (VStack Native c' els') = Ok true /\
+      is_equal repaired (VStack Native c' els') (VStack Native c els) = Ok true.
+Proof. exact marshal_roundtrip_is_equal. Qed.
+Print Assumptions c04_roundtrip_is_equal_model.
+
+(* its three hypotheses hold of a tree with nested Stacks (an alias among
+   them), Conditions over a string, a Stack and a Condition, numbers and nil *)
+Example c04_is_equal_domain_inhabited :
+  let t := VStack Native (cfgS 2 0 (B "||") [] [] false 0)
+             [ VLeaf (GStr (B "leaf")); VNil; VStack Native (cfg0 3) [];
+               VStack AliasPtr (cfgS 4 0 [] (B ",") [] false 0) [VLeaf (GInt 0 7); VLeaf (GStr (B "AND"))];
+               VCond Native (cfg0 5) (B "k") (Some (OpBuiltin 1)) (VLeaf (GStr (B "v")));
+               VCond AliasVal (cfg0 5) (B "k2") (Some (OpUser (B "~=") (B "custom")))
+                     (VStack Native (cfgS 1 0 [] [] [] false 0) [VLeaf (GStr (B "x")); VLeaf (GBool true)]);
+               VCond Native (cfg0 5) (B "outer") (Some (OpBuiltin 1))
+                     (VCond Native (cfg0 5) (B "inner") (Some (OpBuiltin 2)) (VLeaf (GInt 0 3))) ] in
+  node_ok (inj t) = true /\ plain (inj t) = true /\ refl_domain t = true.
+Proof. vm_compute. repeat split; reflexivity. Qed.
 
 (* The same round trip for the trees of the shared universe Values.value *)
 Theorem c04_marshal_unmarshal_value :
